@@ -10,9 +10,17 @@
     ASCII, and an invalid or non-ASCII byte sequence becomes a non-ASCII character, so these are
     modelled directly on the bytes (see `parseBool` for the one Unicode fact this relies on);
   * an instant is the pair `(secs, nanos)` = (`DateTime::timestamp()`, `timestamp_subsec_nanos()`);
-    `nanos ≥ 10^9` is chrono's representation of a leap second. `datetime_to_utc` rebuilds the
-    instant with `Utc.timestamp_opt(..).single().expect(..)`, which PANICS when chrono refuses the
-    pair; that is an explicit outcome here (`ConvResult.panic`).
+    `nanos ≥ 10^9` is chrono's representation of a leap second. `datetime_to_utc` is
+    `ts.with_timezone(&Utc)` (since 83f4a4b): the SAME pair, leap-second representation included,
+    and it cannot fail. (Before, it rebuilt the instant with `Utc.timestamp_opt(..).single()
+    .expect(..)` and panicked on the pairs chrono refuses, `timestampOptOk = false`: a leap second
+    on a UTC second that is not :59 — finding `nopanic:D_leap_offset`, now fixed.)
+    `ConvResult.panic` / `R.panic` remain as outcomes of the wire format (what the harness reports
+    when the real code panics); no modelled path produces them any more
+    (`C35.convert_no_panic`).
+  * a timestamp VALUE is observed as a nanosecond count (`Value.ts`, wire `ts:<ns>` =
+    `timestamp()·10⁹ + timestamp_subsec_nanos()`, which is also what `timestamp_nanos_opt` gives):
+    the leap-second representation `(s, 10⁹ + f)` is not distinguished from `(s + 1, f)`.
   * third-party primitives are parameters: `FloatText` (core's `f64` parsing/printing) and
     `Chrono` (strftime parsing, zone resolution, RFC 3339 / RFC 2822 parsing). Their laws are
     hypotheses of the theorems in `VrlProofs/Props/C35.lean`.
@@ -232,7 +240,8 @@ inductive R (α : Type) where
 
 /-- `Utc.timestamp_opt(secs, nanos)` is `Single` iff the date is in chrono's range and the
     nanosecond field is < 2·10⁹ and, if ≥ 10⁹ (leap second), `secs % 60 == 59`
-    (`NaiveTime::from_num_seconds_from_midnight_opt`, `DateTime::from_timestamp`). -/
+    (`NaiveTime::from_num_seconds_from_midnight_opt`, `DateTime::from_timestamp`).
+    Used by `parse_unix_timestamp` (with `nanos = 0`); `datetime_to_utc` no longer goes through it. -/
 def chronoMinSecs : Int := -8334601228800   -- -262143-01-01T00:00:00Z
 def chronoMaxSecs : Int := 8210266876799    -- +262142-12-31T23:59:59Z
 
@@ -240,9 +249,11 @@ def timestampOptOk (secs : Int) (nanos : Nat) : Bool :=
   decide (chronoMinSecs ≤ secs) && decide (secs ≤ chronoMaxSecs) && decide (nanos < 2000000000) &&
   (decide (nanos < 1000000000) || secs % 60 == 59)
 
-/-- `datetime_to_utc`: `Utc.timestamp_opt(ts.timestamp(), ts.timestamp_subsec_nanos()).single().expect(..)`. -/
-def datetimeToUtc (i : Inst) : R Inst :=
-  if timestampOptOk i.1 i.2 then .ok i else .panic
+/-- `datetime_to_utc`: `ts.with_timezone(&Utc)` — `Utc.from_utc_datetime` of the UTC date-time the
+    `DateTime<Tz>` stores: `timestamp()` and `timestamp_subsec_nanos()` are unchanged (a leap-second
+    nanosecond field ≥ 10⁹ is kept, also on a UTC second that is not :59), nothing is re-validated,
+    nothing can fail. -/
+def datetimeToUtc (i : Inst) : R Inst := .ok i
 
 /-- `TimeZone::datetime_from_str(&self, s, format)`. -/
 def datetimeFromStr {P : Type} (ch : Chrono P) (tz : Tz) (s : List Nat) (fmt : List Char) : R Inst :=
@@ -280,8 +291,8 @@ def tzFormats : List (List Char) := [
   ['%', 'a', ' ', '%', 'd', ' ', '%', 'b', ' ', '%', 'T', ' ', '%', '#', 'z', ' ', '%', 'Y'],
   ['%', 'd', '/', '%', 'b', '/', '%', 'Y', ':', '%', 'T', ' ', '%', 'z']]
 
-/-- the loop over `TIMESTAMP_LOCAL_FORMATS`: first `Ok` wins (`Err` and, faithfully, a panic inside
-    `datetime_from_str` both leave the loop: the panic propagates). -/
+/-- the loop over `TIMESTAMP_LOCAL_FORMATS`: first `Ok` wins (a panic inside `datetime_from_str`
+    would leave the loop and propagate; `datetimeFromStr` has no such outcome any more). -/
 def tryLocal {P : Type} (ch : Chrono P) (tz : Tz) (s : List Nat) : List (List Char) → Option (R Inst)
   | [] => none
   | f :: fs =>
